@@ -21,7 +21,8 @@ THEOREMS = [P + t for t in [
     "unsafe_buffer_rs_408", "unsafe_buffer_rs_440", "unsafe_buffer_rs_456", "unsafe_buffer_rs_482_490",
     "unsafe_repr_rs_333_433_487", "unsafe_repr_rs_356", "unsafe_repr_rs_191", "unsafe_repr_rs_164_231",
     "unsafe_repr_rs_547", "unsafe_repr_rs_504_519", "unsafe_repr_rs_new_unchecked",
-    "bump_slice_inside", "bump_writes_inside", "bump_slices_disjoint"]]
+    "bump_slice_inside", "bump_writes_inside", "bump_slices_disjoint",
+    "unsafe_repr_rs_290", "static_clone_correct", "static_clone_from_correct", "static_register_readonly", "unsafe_repr_rs_209", "unsafe_convert_rs_563_695", "unsafe_shift_rs_57", "unsafe_shift_rs_57_needs_nonempty", "unsafe_primitive_rs_66", "unsafe_primitive_rs_66_needs_two", "unsafe_primitive_rs_82", "unsafe_primitive_rs_96", "invariant_says_canonical", "arithmetic_histories_keep_invariant", "skeleton_ops_ok"]]
 
 REFINED = [
     "buffer.rs: allocate_raw(97) deallocate_raw(111) reallocate_raw(148) push(209) push_repeat(235) push_zeros_front(266) "
@@ -30,16 +31,24 @@ REFINED = [
     "allocate/allocate_exact/reallocate/ensure_capacity(_exact)/shrink_to_fit/push_resizing/truncate/From<&[Word]>",
     "repr.rs: from_word(270) from_dword(281) with_sign(136) neg(441) from_buffer(333) into_buffer(356,376) into_typed(191,198) "
     "as_sign_slice/as_sign_typed(231,164) ones(433) Clone::clone(468,487) Clone::clone_from(498,504,519,531) Drop(547)",
+    "repr.rs from_static_words(290) as a read-only register kind (static-backed values: clone, clone_from FROM them, views; "
+    "never a target), into_sign_typed(209); convert.rs as_ibig/as_ubig(563,695) as identity moves",
+    "shift.rs shr_in_place_one_word(57); primitive.rs lowest_dword(66) highest_dword(82) split_hi_word(96): per-block bounds "
+    "obligations with and without debug assertions + counterexamples showing the caller-side hypothesis is needed",
+    "storage skeletons of UBig + - * << >> in all ownership forms (add_ops.rs/mul_ops.rs/shift_ops.rs mod repr): exact "
+    "sequence of allocate/into()/ensure_capacity/push*/erase_front/from_buffer/drops, kernels abstracted to one overwrite",
     "capacity policy default_capacity / max_compact_capacity (regenerated from source, Tie A)",
     "memory.rs: try_find_memory_for_slice(165) allocate_slice_initialize(155) and the element writes (86,104,129,135) — "
     "theorem only, NOT tied by correspondence (crate-private, no hook)"]
 FRONTIER = [
-    "NOT modelled: repr.rs from_static_words (290, values backed by a `static`, never dropped), len/is_zero/is_one union reads "
-    "(87,393,407: no memory access outside the struct), into_sign_typed(209), as_full_slice (zeroize feature, repr.rs:253, "
+    "NOT modelled: len/is_zero/is_one union reads "
+    "(87,393,407: no memory access outside the struct), as_full_slice (zeroize feature, repr.rs:253, "
     "buffer.rs:429), unsafe impl Send/Sync (buffer.rs:35,38; repr.rs:62,65), memory.rs MemoryAllocation::new/Drop (38-43,68: "
     "alloc/dealloc of the scratch block) and Memory's Debug offset_from(27)",
-    "NOT modelled: the unsafe blocks outside buffer/repr/memory (convert.rs 563,695 transmute UBig<->IBig; shift.rs; primitive.rs; "
-    "ubig.rs/ibig.rs from_static_words; arch/*/add.rs intrinsics; fmt/digit_writer.rs) — exercised by Miri histories only",
+    "NOT modelled: arch/*/add.rs intrinsics, fmt/digit_writer.rs (exercised by Miri histories only)",
+    "arithmetic skeletons: div/rem, bit operations, gcd, pow, sqr, mul with min(len) > 24 (scratch block) and IBig sign glue are "
+    "NOT mirrored op by op; they are covered by the general theorem only through their final Repr::from_buffer / from_dword "
+    "(any history of Buffer ops followed by from_buffer is canonical) and by the value-level exploration",
     "Rust-level UB that is not a ledger fact (aliasing/provenance, transmute validity, alignment, reads of uninitialised "
     "[len,cap)) — outside any executable Lean model; Miri is supporting evidence",
     "allocation failure (null from alloc/realloc) is not modelled: the allocator is assumed to succeed",
@@ -70,7 +79,11 @@ EXPLANATION = ("PROVED (Lean, all histories by induction over the op list, all M
                "leaves an empty ledger (no_leak); from_buffer canonical incl. compactness; clone_from equal/canonical/independent "
                "for all size relations; ones canonical; capacity policy chain on the regenerated formulas; one obligation per "
                "modelled unsafe block (unsafe_<file>_<line>); bump-allocator slices aligned, inside, pairwise disjoint. "
-               "VALIDATED by correspondence: mem.buf traces (state + allocator event stream, exact) and mem.policy. "
+               "static-backed values read-only; shift.rs/primitive.rs block obligations; every UBig + - * << >> form is a history over the "
+               "proved op alphabet, so canonical results incl. the compactness bound hold after arithmetic whatever the kernels write "
+               "(arithmetic_histories_keep_invariant, invariant_says_canonical). "
+               "VALIDATED by correspondence: mem.buf traces (state + allocator event stream, exact), mem.arith (public op vs storage "
+               "skeleton: result layout + allocator events + drops, exact) and mem.policy. "
                "EXPLORED: mem.val public-API histories (values, layout invariants, leak/double-free counters). "
                "SUPPORT: mem.miri histories under Miri. See op_histogram for the counts of each kind.")
 ASSUMPTIONS = ["the global allocator never fails and honours the GlobalAlloc contract",
@@ -118,6 +131,8 @@ def nontrivial(c):
     if c.op == "mem.val":
         return any(t.startswith("set:") and len(t.split(":")[2].lstrip("-")) > 32 for t in c.args) or \
             any(t.split(":")[0] in ("shl", "ones", "mul", "sqr", "pow", "selfmul") for t in c.args)
+    if c.op == "mem.arith":
+        return any(len(a) > 32 for a in c.args[2:])
     return c.op in ("mem.policy", "mem.miri")
 
 
@@ -174,7 +189,7 @@ def buf_history(rng, nsteps, fail_p=0.04):
         cur = m.r[k]
         if cur is None:
             c = rng.choice(["alloc", "alloc", "allocx", "fromw", "fromw", "word", "dword", "ones", "bclone", "rclone", "fromw3",
-                            "heapval", "heapval", "roomy"])
+                            "heapval", "heapval", "roomy", "static", "bview"])
             if c == "alloc":
                 n = rng.choice([0, 0, 1, 2, 3, 4, 5, 6, 7, 8, 9, 15, 16, 17, 30, 100, 200])
                 toks.append("alloc:%d:%d" % (k, n)); m.r[k] = ['b', [], dc(n)]
@@ -191,6 +206,25 @@ def buf_history(rng, nsteps, fail_p=0.04):
                 ws = _ws(rng, n, topzero=False)
                 toks.append("fromw:%d:%s" % (k, _fw(ws))); toks.append("tou:%d" % k)
                 m.r[k] = m.from_buffer(ws, dc(n))
+            elif c == "static":
+                n = rng.choice([0, 1, 2, 3, 3, 4, 5, 8, 20])
+                bad = rng.random() < fail_p
+                ws = _ws(rng, n, topzero=(True if (bad and n >= 2) else False))
+                neg = rng.choice([0, 1])
+                toks.append("static:%d:%s:%d" % (k, _fw(ws), neg))
+                if n >= 2 and ws[-1] == 0:
+                    return toks                   # assert repr.rs:295 / 301
+                if n <= 2:
+                    m.r[k] = ['r', ws, 2 if n == 2 else 1, bool(neg) and bool(ws)]
+                else:
+                    m.r[k] = ['s', ws, n, bool(neg)]
+            elif c == "bview":
+                js = [j for j in range(R) if m.r[j] is not None and j != k]
+                if not js:
+                    continue
+                j = rng.choice(js)
+                sw = list(m.r[j][1])
+                toks.append("bview:%d:%d" % (k, j)); m.r[k] = ['b', sw, dc(len(sw))]
             elif c == "roomy":
                 # a buffer with much more room than max_compact_capacity(len): from_buffer must shrink it
                 n = rng.choice([20, 40, 100, 200])
@@ -218,7 +252,7 @@ def buf_history(rng, nsteps, fail_p=0.04):
                 j = rng.choice(js)
                 toks.append("bclone:%d:%d" % (k, j)); m.r[k] = ['b', list(m.r[j][1]), dc(len(m.r[j][1]))]
             else:
-                js = [j for j in m.kinds('r') if j != k]
+                js = [j for j in m.kinds('r') + m.kinds('s') if j != k]
                 if not js:
                     continue
                 j = rng.choice(js)
@@ -231,7 +265,7 @@ def buf_history(rng, nsteps, fail_p=0.04):
             fail = rng.random() < fail_p
             c = rng.choice(["ensure", "ensure", "ensurex", "shrink", "push", "pushr", "pushr", "zeros", "zerosf", "pushs",
                             "pushsf", "popz", "trunc", "erase", "deref", "cfs", "cfs", "cfsf", "bclonefrom", "bclonefrom",
-                            "boxed", "tou", "tou", "drop"])
+                            "boxed", "tou", "tou", "drop", "pusht", "over", "over"])
             rel = m.rel_sizes(ws, cap)
             if c == "ensure":
                 n = rng.choice(rel)
@@ -302,6 +336,23 @@ def buf_history(rng, nsteps, fail_p=0.04):
                         cur[1] = sw
                     else:
                         cur[1] = sw; cur[2] = dc(len(sw))
+            elif c == "pusht":
+                js = [j for j in range(R) if m.r[j] is not None and j != k]
+                if not js:
+                    continue
+                j = rng.choice(js)
+                sw = list(m.r[j][1])
+                lo = rng.choice([x for x in (0, 1, 2, len(sw) - 1, len(sw)) if 0 <= x <= len(sw)] + ([len(sw) + 1] if fail else []))
+                if lo <= len(sw) and len(sw) - lo > cap - l and not fail:
+                    continue
+                toks.append("pusht:%d:%d:%d" % (k, j, lo))
+                if lo > len(sw) or len(sw) - lo > cap - l:
+                    return toks
+                cur[1] = ws + sw[lo:]
+            elif c == "over":
+                nw = _ws(rng, l)
+                toks.append("over:%d:%s" % (k, _fw(nw)))
+                cur[1] = nw
             elif c == "popz":
                 toks.append("popz:%d" % k)
                 while ws and ws[-1] == 0:
@@ -343,16 +394,28 @@ def buf_history(rng, nsteps, fail_p=0.04):
                 toks.append("tou:%d" % k); m.r[k] = m.from_buffer(list(ws), cap)
             else:
                 toks.append("drop:%d" % k); m.r[k] = None
+        elif cur[0] == 's':
+            c = rng.choice(["asslice", "asslice", "drop"])
+            if c == "asslice":
+                toks.append("asslice:%d" % k)
+            else:
+                toks.append("drop:%d" % k); m.r[k] = None
         else:
             _, ws, cap, neg = cur
-            c = rng.choice(["tob", "tob", "rclonefrom", "rclonefrom", "rclonefrom", "sign", "neg", "asslice", "drop"])
+            c = rng.choice(["tob", "tob", "rclonefrom", "rclonefrom", "rclonefrom", "sign", "neg", "asslice", "drop", "ist"])
             if c == "tob":
                 if neg:
                     toks.append("sign:%d:0" % k)
                 toks.append("tob:%d" % k)
                 m.r[k] = ['b', list(ws), cap if cap > 2 else dc(cap)]
+            elif c == "ist":
+                toks.append("ist:%d" % k)
+                if cap <= 2:
+                    cur[3] = False
+                else:
+                    m.r[k] = ['b', list(ws), cap]
             elif c == "rclonefrom":
-                js = [j for j in m.kinds('r') if j != k]
+                js = [j for j in m.kinds('r') + m.kinds('s') if j != k]
                 if not js:
                     continue
                 j = rng.choice(js)
@@ -397,6 +460,12 @@ FIXED_BUF = [
     "fromw:0:1,2,3 tou:0 fromw:1:1,2,3,4,5 tou:1 fromw:2:1,2,3,4,5,6,7,8,9,a,b,c,d,e,f,10,11,12,13,14,15,16,17,18,19,1a,1b,1c,1d,1e,1f,20,21,22,23,24,25,26,27,28 tou:2 rclone:3:2 rclonefrom:2:1 rclonefrom:1:0 "
     "rclonefrom:0:3 neg:0 rclonefrom:1:0 sign:1:0",
     "ones:0:128 ones:1:129 ones:2:192 ones:3:193 ones:4:64 ones:5:65 rclonefrom:1:0 rclonefrom:0:3",
+    # static-backed values (from_static_words): clone allocates, clone_from from a static, views, forget
+    "static:0:1,2,3:0 static:1:5,6,7,8,9:1 static:2:7:1 static:3:-:1 static:4:1,2:0 rclone:5:0 rclonefrom:5:1 "
+    "rclonefrom:2:0 asslice:1 bview:6:1 pusht:6:0:1 drop:0 rclonefrom:5:2",
+    "static:0:1,0:0",
+    "static:0:1,2,0:1",
+    "static:0:0:1 fromw:1:1,2,3 tou:1 ist:1 over:1:9,9,9 tou:1 neg:1 ist:1 tou:1",
     "fromw:0:1,2,3 fromw:1:4,5,6,7,8,9,a,b,c bclonefrom:0:1 bclonefrom:1:0 alloc:2:200 bclonefrom:2:0 cfsf:2:1 pushsf:2:0",
 ]
 
@@ -716,8 +785,86 @@ def miri_cases(rng, tier):
         shutil.rmtree(tdir, ignore_errors=True)
 
 
+def clone_from_ladder(rng, tier):
+    """clone_from for every destination/source size relation around the reuse window
+    src_len <= cap(dest) <= max_compact_capacity(src_len): destinations 1.0x .. 2x+2 longer than the source
+    (and shorter), as value-level histories (layout invariant incl. compactness checked after the call) and as
+    buffer-level histories (exact capacity + allocator events compared with the model)"""
+    srcs = [3, 4, 5, 6, 8, 10, 13, 16, 20, 24, 32, 40, 64] if tier == "quick" else list(range(3, 70)) + [100, 128, 200]
+    for sl in srcs:
+        for dl in sorted(set(list(range(max(sl - 3, 0), 2 * sl + 3)) + [3 * sl, 4 * sl + 1])):
+            src = nat_pattern(rng, sl, "random")
+            dst = nat_pattern(rng, dl, "random") if dl else 0
+            sg = rng.choice(["", "-"])
+            yield Case("mem.val", ["set:0:%s" % hx(dst), "set:1:%s%s" % (sg, hx(src)), "clonefrom:0:1", "clonefrom:1:0",
+                                   "selfadd:0", "drop:1"])
+            sw = [(src >> (64 * i)) & ((1 << 64) - 1) for i in range(sl)]
+            dw = [(dst >> (64 * i)) & ((1 << 64) - 1) for i in range(dl)]
+            yield Case("mem.buf", ["fromw:0:%s" % _fw(dw), "tou:0", "fromw:1:%s" % _fw(sw), "tou:1", "rclonefrom:0:1",
+                                   "asslice:0", "drop:1"])
+            # destination with the largest capacity a canonical value can have (cap = max_compact(len)):
+            # built by cloning INTO a reusable bigger buffer first
+            if dl >= 3:
+                b = max(x for x in range(dl, mc(dl) + 1) if dc(x) <= mc(dl))   # dc(b) is the largest reusable capacity
+                if b <= 400:
+                    yield Case("mem.buf", ["fromw:0:%s" % _fw([1] * b), "tou:0", "fromw:2:%s" % _fw(dw), "tou:2",
+                                           "rclonefrom:0:2", "fromw:1:%s" % _fw(sw), "tou:1", "rclonefrom:0:1", "drop:2"])
+                    yield Case("mem.val", ["set:0:%s" % hx((1 << (64 * b)) - 1), "set:2:%s" % hx(dst), "clonefrom:0:2",
+                                           "set:1:%s%s" % (sg, hx(src)), "clonefrom:0:1", "suba:0:1"])
+
+
+def arith_cases(rng, tier):
+    """mem.arith: ONE public UBig operation in ONE ownership form; real allocator event stream, result layout and
+    drop events against the storage skeleton of Model/Mem/Arith.lean"""
+    B = 1 << 64
+    lens = [0, 1, 2, 3, 4, 5, 6, 8, 9, 12, 17, 24, 25, 40]
+    forms = ["rr", "rv", "vr", "vv"]
+
+    def operand(n, pat):
+        return nat_pattern(rng, n, pat) if n else 0
+
+    reps = 1 if tier == "quick" else 6
+    for _ in range(reps):
+        for la in lens:
+            for lb in lens:
+                for f in forms:
+                    pa = rng.choice(["ones", "random", "random", "topone", "zero"])
+                    pb = rng.choice(["ones", "random", "one", "pow2"])
+                    a, b = operand(la, pa), operand(lb, pb)
+                    yield Case("mem.arith", ["add", f, hx(a), hx(b)])
+                    # subtraction: ordered, equal (cancels to zero), one apart, small remainder, negative
+                    for (x, y) in ((max(a, b), min(a, b)), (a, a), (a, max(a - 1, 0)), (a, max(a - (B - 1), 0)), (min(a, b), max(a, b))):
+                        if rng.random() < (0.5 if tier == "quick" else 1.0):
+                            yield Case("mem.arith", ["sub", f, hx(x), hx(y)])
+                    if min(la, lb) <= 24 and a != b and la + lb <= 70:
+                        yield Case("mem.arith", ["mul", f, hx(a), hx(b)])
+    # carries that add a word, on every form
+    for n in [1, 2, 3, 4, 8, 9, 16, 17]:
+        for f in forms:
+            yield Case("mem.arith", ["add", f, hx((1 << (64 * n)) - 1), hx(1)])
+            yield Case("mem.arith", ["add", f, hx(1), hx((1 << (64 * n)) - 1)])
+            yield Case("mem.arith", ["add", f, hx((1 << (64 * n)) - 1), hx((1 << (64 * n)) - 1)])
+            yield Case("mem.arith", ["mul", f, hx((1 << (64 * n)) - 1), hx(B - 1)])
+            yield Case("mem.arith", ["mul", f, hx((1 << (64 * n)) - 1), hx(B * B - 1)])
+            yield Case("mem.arith", ["mul", f, hx((1 << (64 * n)) - 1), hx(1 << 70)])
+            yield Case("mem.arith", ["mul", f, hx((1 << (64 * n)) - 1), hx(0)])
+            yield Case("mem.arith", ["mul", f, hx(1), hx((1 << (64 * n)) - 1)])
+    for la in lens:
+        for _ in range(reps):
+            a = operand(la, rng.choice(["ones", "random", "one", "pow2", "highbit"]))
+            ns = {0, 1, 63, 64, 65, 127, 128, 129, 191, 192, 200, 1000, 64 * la, 64 * la - 1, 64 * la + 1,
+                  max(64 * la - 128, 0), max(64 * la - 129, 0), max(64 * la - 127, 0),
+                  64 * (1 + la // 8), 64 * (2 + la // 8), 64 * (la // 8), 64 * (1 + la // 8) + 63}
+            for n in sorted(x for x in ns if x >= 0):
+                for f in ("v", "r"):
+                    yield Case("mem.arith", ["shl", f, hx(a), "d:%d" % n])
+                    yield Case("mem.arith", ["shr", f, hx(a), "d:%d" % n])
+
+
 def generate(rng, tier):
     yield from policy_cases(rng, tier)
+    yield from arith_cases(rng, tier)
+    yield from clone_from_ladder(rng, tier)
     yield from buf_cases(rng, tier)
     yield from val_cases(rng, tier)
     yield from miri_cases(rng, tier)
